@@ -18,6 +18,30 @@ from .common import Check
 from .sched import drive
 
 
+LIMIT_S = 10
+
+
+class _TooLong(BaseException):
+    pass
+
+
+def _limited(go):
+    """replay.outcome(go), given LIMIT_S seconds: a chain that is never rejected (a loop) is an outcome, not a hang of the check."""
+    import signal
+
+    def onalarm(signum, frame):
+        raise _TooLong()
+    old = signal.signal(signal.SIGALRM, onalarm)
+    signal.alarm(LIMIT_S)
+    try:
+        return replay.outcome(go)
+    except _TooLong:
+        return {"ok": False, "err": "DoesNotReturn", "mro": [], "nonliquid": True, "msg": f"no result within {LIMIT_S}s", "site": "?"}
+    finally:
+        signal.alarm(0)
+        signal.signal(signal.SIGALRM, old)
+
+
 def judge(rec, opts):
     from liquid2 import CachingDictLoader, DictLoader
     out = []
@@ -36,7 +60,7 @@ def judge(rec, opts):
                     t = await env.get_template_async(main)
                     return await t.render_async(**args)
                 return drive(co)
-            got = replay.outcome(go)
+            got = _limited(go)
             f = replay.compare(rec, got)
             if f is not None:
                 shape = "entered-via-" + main if main in ("inc", "ren") else ("mixed-chains" if main == "mix1" else "chain")
@@ -54,7 +78,7 @@ def check(tier: str) -> int:
     # auto escape off, then on (the data holds markup; block.super is rendered output and is not escaped again)
     for esc in ("FALSE", "TRUE"):
         consts = {"MaxDepth": str(depth), "Focus": '"inherit"' if esc == "FALSE" else '"inherit-escape"', "AutoEsc": esc}
-        r = tlc.run("LiquidInherit", tlc.cfg_text(constants=consts, invariants=["RefinesReference", "Rejected", "Circular", "Export"]),
+        r = tlc.run("LiquidInherit", tlc.cfg_text(constants=consts, invariants=["RefinesReference", "Rejected", "Circular", "CircularInner", "Export"]),
                     tag="inherit" + esc[0], extra_files={"concrete.json": gen.CONCRETE}, timeout=7000)
         try:
             if r.error:
